@@ -90,3 +90,21 @@ def cases(rng, tier):
 
 def nontrivial(c):
     return c[0][0] == 1 and any(o[0] in (0, 2, 7) for o in c[4])
+
+
+def extra_checks(ctx, cases_, impl_lines, model_lines_):
+    """an on-start-up trigger DECLARED in a configuration document (min_size given, omitted = 1, zero): C14's
+    renderings with such a trigger, behaviour compared with the programmatic configuration"""
+    from gen import xcheck
+
+    def has_onstartup(c):
+        try:
+            from gen import c14
+            doc = c14.dec_tree(c[0])
+            apps = doc.get("appenders") or {}
+            return c[5] == "render" and any(isinstance(a, dict) and isinstance(a.get("policy"), dict)
+                                            and (a["policy"].get("trigger") or {}).get("kind") == "onstartup"
+                                            for a in apps.values())
+        except Exception:
+            return False
+    return xcheck.borrow(ctx, "C14", "an on-start-up trigger declared in a configuration document", has_onstartup, n=120)
